@@ -29,6 +29,10 @@ RULE = ("hist: a random history (4-33 ops) of deliveries, raw HTTP requests (7 p
         "with and without unrelated headers — framing and such headers must not matter), attachment numbers incl. zero-padded ones longer than 20 digits, signed spellings (-1, -0, +1) and values around 2^31 / 2^32 / 2^63, "
         "asked for messages that exist, with and without attachments) and calls of every method of "
         "pkg/rest/client, run on the memory and the file store, local/full naming, with and without a base path. "
+        "Message metadata: tags from 400 on are stored with EMPTY or long metadata — no recipients, an empty sender address, an empty "
+        "subject, one empty recipient, 60 recipients, and combinations — mixed into the histories (30% of the deliveries) and in a stream of their own "
+        "followed by plain listings (no query parameters) through the API and the client and every message fetched by id (API, client, web UI): "
+        "a listing is exactly the mailbox, and every field is read back as stored, whatever the metadata looks like. "
         "A further stream makes message content unavailable — the content file vanishes (file store), or another client's removal "
         "completes between the manager's look-up and its open (a wrapper around the Store the manager sees) — and asks for the message "
         "through every endpoint: any well-formed answer is accepted there, a dropped connection (handler panic) is not. "
